@@ -311,6 +311,7 @@ def equiv_exact(ctx, prog):
     bad = []
     n_true = 0
     all_call = None
+    loop_true = None
     for blk, e in results:
         if e[0] == "const" and const_value(e) == 0:
             continue
@@ -326,8 +327,10 @@ def equiv_exact(ctx, prog):
             bad.append("result %s at bb%d is not under `self.len() == other.len()`" % (show(e)[:80], blk))
         if e[0] == "call" and e[1].endswith("Iterator::all"):
             all_call = e
+        elif const_value(e) == 1:
+            loop_true = blk
         else:
-            bad.append("a result other than false / all(..): %s" % show(e)[:80])
+            bad.append("a result other than false / all(..) / `true` after the loop: %s" % show(e)[:80])
     ctx.ob(R, "is_equiv_internal: every result other than false is computed under `self.len() == other.len()` (exact length equality)", not bad and n_true >= 1,
            "; ".join(bad) or "%d non-false result(s)" % n_true, f.loc())
     ok = False
@@ -358,6 +361,28 @@ def equiv_exact(ctx, prog):
                     why += "; the masks read are %s, not self.representation()" % caps
         else:
             ok = False
+    if all_call is None and loop_true is not None:
+        # loop form: `for (i, &ch) in other.iter().enumerate() { if mask[ch] & (1 << i) == 0 { return false } } true`
+        nexts = [(i, t) for i, t in f.calls() if callee_of(t).endswith("::next")]
+        why = "loop form: %d next() calls" % len(nexts)
+        if len(nexts) == 1:
+            nb, nt = nexts[0]
+            src = canon(strip(sy.origin(strip(sy.operand(nt["args"][0])))))
+            src = re.sub(r"^<I as core::iter::IntoIterator>::into_iter\((.*)\)$", r"\1", src)
+            item = r"\(<core::iter::Enumerate<I> as core::iter::Iterator>::next\(local:\w+\) as Some\)\.0"
+            rx = re.compile(r"^BitAnd\(internals::compare::position_array::BlockHashPositionArrayData::representation\(param:self\)\[\(%s\.1 as usize\)\],Shl\(1,%s\.0\)\)$" % (item, item))
+            tests = []
+            for blk, e in results:
+                if not (e[0] == "const" and const_value(e) == 0):
+                    continue
+                for c in path_conds(f, sy, blk):
+                    a = bool_atom(c)
+                    if a and a[0] == "Eq" and const_value(strip(a[2])) == 0 and rx.match(re.sub(r"::<[^()\[\]]*>\(", "(", canon(strip(a[1])))) and len(c) > 3:
+                        tests.append(c[3][0])
+            latches = [b for b in f.live if nb in f.lsuccs(b) and f.dominates(nb, b)]
+            ok = src == "core::iter::Iterator::enumerate(core::slice::<impl [T]>::iter(param:other))" and len(set(tests)) == 1 and bool(latches) \
+                and all(f.dominates(tests[0], b) for b in latches) and any(strip(c[0])[0] == "discr" for c in path_conds(f, sy, loop_true))
+            why = "loop form: iterates %s; per-position test blocks %s dominate the back edges %s" % (src[:90], sorted(set(tests)), latches)
     ctx.ob(R, "is_equiv_internal: the non-false result is `all` over every (position, symbol) of `other` of `mask[symbol] & (1 << position) != 0`", ok, why, f.loc())
 
 
